@@ -14,6 +14,7 @@ git -C /repo worktree add --detach "$MX/repo" HEAD >/dev/null 2>&1 || { echo "ca
 mkdir -p "$MX/verif"
 rsync -a --exclude .git --exclude .work --exclude .build --exclude violations --exclude seeded "$HERE/" "$MX/verif/"
 sed -i "s#=> /repo#=> $MX/repo#" "$MX/verif/harness/go.mod"
+[ -f "$MX/repo/go.sum" ] || cp /repo/go.sum "$MX/repo/go.sum"
 cp "$MX/repo/go.sum" "$MX/verif/harness/go.sum"
 OUT="$HERE/seeded/MATRIX.txt"
 [ $# -eq 0 ] && : > "$OUT.new"
@@ -31,7 +32,7 @@ for id in $IDS; do
     if [ $? -ne 0 ]; then
       line="$id vs $prop: does not build"
     else
-      out=$(cd "$MX/verif" && VERIF_DIR="$MX/verif" VERIF_TIER=quick VERIF_SEED=1 VERIF_EVIDENCE_DIR="$MX/evidence" ./.build/vcheck run $prop 2>&1); rc=$?
+      out=$(cd "$MX/verif" && VERIF_DIR="$MX/verif" VERIF_TIER=quick VERIF_SEED=${SEED:-1} VERIF_EVIDENCE_DIR="$MX/evidence" ./.build/vcheck run $prop 2>&1); rc=$?
       sigs=$(echo "$out" | grep -A1 '^VIOLATION' | grep 'signature:' | sed 's/.*signature: //' | sort -u | tr '\n' ' ')
       line="$id vs $prop: exit=$rc $(echo "$out" | grep -c '^VIOLATION') violation line(s) $(echo "$out" | grep "^$prop tier" | sed 's/.*cases=/cases=/; s/ evaluations.*//') | $sigs"
     fi
